@@ -228,6 +228,24 @@ class World(object):
                 self.unc = self.unc.copy()
                 self.val[m] = v
                 self.unc[m] = e
+        if spec.get('sed_hole'):
+            # a model SED with a hole: one channel holds NaN (or inf) in the flux and / or the error, in every aperture
+            m, j, what, bad = spec['sed_hole']
+            m = m % nm
+            wv, v, e = self.sed[m]
+            j = j % len(wv)
+            v, e = v.copy(), e.copy()
+            badv = np.nan if bad == 'nan' else np.inf
+            if what in ('flux', 'both'):
+                v[:, j] = badv
+            if what in ('error', 'both'):
+                e[:, j] = badv
+            self.sed[m] = (wv, v, e)
+            if wv is self.wav:
+                self.val = self.val.copy()
+                self.unc = self.unc.copy()
+                self.val[m] = v
+                self.unc[m] = e
         self.ext_wav = np.logspace(-2, 4, int(spec.get('ext_n', 40)))
         self.ext_chi = 100.0 * self.ext_wav ** (-spec['ext_slope'])
 
